@@ -91,7 +91,7 @@ ALL_VARIANTS = [(d, a, i) for d in (True, False) for a in (False, True) for i in
 
 class C02(Check):
     pid = "C02"
-    lean_modules = []
+    lean_modules = ["MTProps.C02"]
 
     def body(self):
         rng = self.rng
@@ -183,7 +183,7 @@ class C02(Check):
 
 class C06(Check):
     pid = "C06"
-    lean_modules = []
+    lean_modules = ["MTProps.C06"]
 
     def body(self):
         rng = self.rng
